@@ -188,6 +188,9 @@ func constLen(v ssa.Value) (int64, bool) {
 			if at, ok := x.Type().Underlying().(*types.Array); ok {
 				return at.Len(), true
 			}
+			if ct := tableOf(x); ct != nil {
+				return int64(len(ct.Vals)), true
+			}
 		}
 	}
 	return 0, false
